@@ -165,7 +165,8 @@ CursorOK ==
     /\ shown => (cvis => InPhys(cur[1], cur[2]))
 \* a resize event in the queue or just drained carries the physical size of the moment it was produced; one per change
 ResizeOnce ==
-    /\ Cardinality({i \in 1..Len(q) : q[i][1] = "resize" /\ q[i] = <<"resize", pw, ph>>}) <= 1
+    /\ LET rs == SelectSeq(q, LAMBDA e : e[1] = "resize") IN        \* one event per change: never the same size twice in a row
+       \A i \in 1..(Len(rs) - 1) : rs[i] # rs[i + 1]
     /\ shown => (due = <<>> \/ \E i \in 1..Len(q) : q[i] = <<"resize", due[1][1], due[1][2]>>)
 KeysInOrder ==
     LET keys(s) == SelectSeq(s, LAMBDA e : e[1] = "key") IN
